@@ -66,7 +66,27 @@ REUSE = _conc("reuse", 8, 16, {"runs": 4}, {"runs": 120})
 MEMLIMIT = _conc("memlimit", 4, 8, {"runs": 12}, {"runs": 300})
 SCAN = _conc("scan", 4, 8, {"runs": 6}, {"runs": 150})
 
+def _fault(tier):
+    if tier == "quick":
+        return [{"engine": "fault", "args": {"threads": 16}}]
+    return [{"engine": "fault", "shards": 4, "args": {"threads": 6}}]
+
+
+def _live(mode, rq, rt):
+    def f(tier):
+        if tier == "quick":
+            return [{"engine": "live", "shards": 4 if mode == "wb" else 1, "args": {"mode": mode, "runs": rq}}]
+        return [{"engine": "live", "shards": 4 if mode == "wb" else 2, "args": {"mode": mode, "runs": rt, "threads": 8}}]
+    return f
+
+
 PLAN = {
+    "C09": {"level": "fault_enumeration", "engines": _fault, "min_nontrivial": 100,
+            "assumptions": CRASH_ASSUMPTIONS + ["faults are injected on the synchronous I/O path (hook H2 disables io_uring) with one flush worker so the I/O calls of a workload can be numbered; each plan runs in its own process because the store keeps a process-wide registry of poisoned files", "read failures are outside the property"]},
+    "C18": {"level": "exploration", "engines": _live("live", 48, 600), "min_nontrivial": 20,
+            "assumptions": ["termination is judged by bounded progress: every scenario must finish; a watchdog expiry counts as a violation only with a stall signature (no thread consumed CPU for 2 s, none runnable), otherwise it is inconclusive", "every other engine's child/worker runs under the driver's watchdog as well"]},
+    "C19": {"level": "exploration", "engines": _live("wb", 32, 192), "min_nontrivial": 12,
+            "assumptions": ["'bounded' is judged logically (pending-work accessor reaches zero, durable prefix equals the accepted state); wall-clock only fails a run after 10 s without drain AND 5 s without device activity; drain times are reported as a distribution"] + CRASH_ASSUMPTIONS[:2]},
     "C07": {"level": "exploration", "engines": LIN, "min_nontrivial": 500, "assumptions": CONC_ASSUMPTIONS},
     "C08": {"level": "exploration", "engines": REUSE, "min_nontrivial": 50, "assumptions": CONC_ASSUMPTIONS + ["one writer per key, so each key's writes form a sequence with recorded intervals; readers never modify"]},
     "C02": {"level": "fault_enumeration", "engines": _crash("ack", 14, 240), "min_nontrivial": 200, "assumptions": CRASH_ASSUMPTIONS},
